@@ -126,6 +126,85 @@ def ho_msg(rng, size, select):
     return None
 
 
+def _aligned(build, bounds, tail):
+    """build(pads) -> the first len(pads) padded records (plus any fixed leading record).  Choose the
+    pads so that the encoding of the records up to the j-th padded one has exactly bounds[j] octets
+    (a record boundary at that offset of the message); a last record padded with `tail` follows."""
+    pads = []
+    for b in bounds:
+        pad = max(0, b - len(enc(build(pads + [0]))))
+        for _ in range(5):
+            n = len(enc(build(pads + [pad])))
+            if n == b:
+                break
+            pad = max(0, pad + b - n)
+        else:
+            return None
+        if len(enc(build(pads + [pad]))) != b:
+            return None
+        pads.append(pad)
+    return enc(build(pads + [tail]))
+
+
+def ndef_aligned(rng, bounds, tail):
+    """canonical multi-record message (len(bounds)+1 records) with record boundaries at `bounds`"""
+    if not bounds or bounds[0] < 4 or any(b - a < 8 for a, b in zip(bounds, bounds[1:])):
+        return None
+    fill = rng.randrange(256)
+    kinds = [rng.choice(['media', 'unknown', 'ext', 'id']) for _ in range(len(bounds) + 1)]
+
+    def build(pads):
+        recs = []
+        for i, pad in enumerate(pads):
+            body = bytes((fill + i + j) & 255 for j in range(pad))
+            k = kinds[i]
+            if k == 'media':
+                recs.append(ndef.Record('a/b', '', body))
+            elif k == 'unknown':
+                recs.append(ndef.Record('unknown', '', body))
+            elif k == 'ext':
+                recs.append(ndef.Record('urn:nfc:ext:nv.test:c06', '', body))
+            else:
+                recs.append(ndef.Record('a/b', 'r%d' % i, body))
+        return recs
+    m = _aligned(build, bounds, tail)
+    if m is None:
+        return None
+    try:
+        if enc(list(ndef.message_decoder(m, known_types={}))) != m:
+            return None
+    except (ndef.DecodeError, ValueError):
+        return None
+    return m
+
+
+def ho_aligned(rng, bounds, tail, select):
+    """canonical handover request / select message: Hr|Hs record + len(bounds)+1 carrier records, with
+    the boundary after the j-th carrier record at bounds[j]"""
+    if not bounds or any(b - a < 40 for a, b in zip(bounds, bounds[1:])):
+        return None
+    fill = rng.randrange(256)
+    ncar = len(bounds) + 1
+
+    def build(pads):
+        h = ndef.HandoverSelectRecord('1.3') if select else ndef.HandoverRequestRecord('1.3', crn=0x2000 + fill)
+        for i in range(ncar):
+            h.add_alternative_carrier('active', 'c%d' % i)
+        recs = [h]
+        for i, pad in enumerate(pads):
+            recs.append(ndef.Record('application/vnd.c06.carrier', 'c%d' % i, bytes((fill + i + j) & 255 for j in range(pad))))
+        return recs
+    m = _aligned(build, bounds, tail)
+    if m is None:
+        return None
+    try:
+        if enc(list(ndef.message_decoder(m, 'relax'))) != m or enc(list(ndef.message_decoder(m, 'strict', {}))) != m:
+            return None
+    except (ndef.DecodeError, ndef.EncodeError, ValueError):
+        return None
+    return m
+
+
 def classify(octets, *args, **kw):
     """what ndeflib does with the octets: 'ok' | 'err' (ndef.DecodeError) | 'other' (anything else, in
     practice UnicodeDecodeError, a ValueError; since 0af44aa the SNEP / handover code treats it like
@@ -680,7 +759,7 @@ def main():
                 ck.violation('%s-fragment-exceeds-miu' % kind, 'a fragment larger than the send MIU was given to the socket', case)
             if got_log != expect['log']:
                 nexp, ngot = len(expect['log']), len(got_log)
-                if kind == 'ho' and len(ops) > 1 and got_log[:1] == expect['log'][:1]:
+                if kind == 'ho' and len(ops) > 1 and len(got_log) > 1 and got_log[0] == expect['log'][0] and got_log[1] == got_log[0]:
                     key = 'ho-server-second-request'
                     what = ('handover server: a second request on the same connection is not delivered intact '
                             '(the first request is processed again, once per fragment)')
@@ -794,9 +873,106 @@ def main():
                 return False
         return True
 
+    # ------------------------------------------------------------ (3) full stack: two real LLCs, no radio
+    def fullstack(kind, ops, cfg, max_acc, answers, tag, expect):
+        case = {'fullstack': True, 'kind': kind, 'tag': tag, 'cfg': cfg, 'max_acc': max_acc,
+                'ops': [fmt_op(o) for o in ops], 'answers': fmt_answers(answers), 'expect': expect}
+        if kind == 'ho' and len(ops) > 1 and any(v[0] == 'ho-server-second-request' for v in ck.violations):
+            return                     # already reported; the unrepaired server can deadlock the link here
+        obs = None
+        for attempt in range(2):       # a disagreement must reproduce (real threads, real waits)
+            try:
+                obs = fullstack_run(kind, ops, cfg, max_acc, answers)
+            except llcpair.Inconclusive as e:
+                ck.count('fullstack-inconclusive')
+                lst = ck.cov.setdefault('fullstack_inconclusive', [])
+                if len(lst) < 10:
+                    lst.append({'kind': kind, 'tag': tag, 'cfg': cfg, 'max_acc': max_acc, 'why': str(e), 'attempt': attempt,
+                                'sizes': [len(o[1]) for o in ops], 'answer_sizes': [len(a[1]) for a in answers if len(a) > 1 and isinstance(a[1], bytes)]})
+                if os.environ.get('C06_DEBUG'):
+                    sys.stderr.write('INCONCLUSIVE %s\n' % json.dumps(lst[-1] if lst else {}, default=str))
+                if attempt == 0:
+                    continue
+                return
+            except Exception as e:  # noqa
+                obs = {'results': ['!' + type(e).__name__], 'log': [], 'send_miu': None, 'recv_miu': None, 'frames': 0}
+            if obs['log'] == expect['log'] and obs['results'] == expect['results']:
+                break
+        ck.count('fullstack-%s-%s' % (kind, tag))
+        if obs.get('close_hung'):
+            ck.count('fullstack-socket-close-hung-after-transfer(tco close race, not a C06 matter)')
+        ck.case(('fs', kind, tuple(ops), tuple(sorted(cfg.items())), max_acc), obs['frames'] > 12,
+                {'kind': 'fullstack ' + kind, 'tag': tag, 'cfg': cfg, 'sizes': [len(o[1]) for o in ops],
+                 'pdus': obs['frames'], 'send_miu': obs['send_miu']})
+        if obs['log'] != expect['log']:
+            if kind == 'ho' and len(ops) > 1 and len(obs['log']) > 1 and obs['log'][0] == expect['log'][0] and obs['log'][1] == obs['log'][0]:
+                ck.violation('ho-server-second-request', 'handover server: a second request on the same connection is not delivered '
+                             'intact (the first request is processed again, once per fragment)', case)
+            else:
+                ck.violation('fullstack-%s-%s-delivery' % (kind, tag), 'full stack (two LLCs): the server application did not receive '
+                             'exactly the messages sent, once each', dict(case, got_log=[clip(x) for x in obs['log']]))
+        elif obs['results'] != expect['results']:
+            ck.violation('fullstack-%s-%s-client-result' % (kind, tag), 'full stack (two LLCs): the client did not obtain the expected '
+                         'result', dict(case, got=[clip(x) for x in obs['results']]))
+        # the model, run with the MIUs the connection really negotiated, must predict the same
+        if obs['send_miu'] and obs['recv_miu']:
+            nf = 4 * sum(len(o[1]) // 100 + 4 for o in ops) + 8 * sum(len(a[1]) // 100 + 4 for a in answers if len(a) > 1 and isinstance(a[1], bytes)) + 60
+            if kind == 'snep':
+                cls = {o[1]: default_cls(o[1]) for o in ops}
+                line = 'snep %d %d %d %s %s %s %d' % (obs['send_miu'], obs['recv_miu'], max_acc,
+                                                       fmt_table([c for c in cls if cls[c] == 'ok']),
+                                                       fmt_answers(answers), ','.join(fmt_op(o) for o in ops) or '.', nf)
+            else:
+                qs = set(o[1] for o in ops) | set(a[1] for a in answers if a[0] == 'h')
+                line = 'ho %d %d 1 %s %s %s %s %d' % (obs['send_miu'], obs['recv_miu'], fmt_table([q for q in qs if strict_ok(q)]),
+                                                        fmt_table([q for q in qs if is_hr(q)]), fmt_answers(answers),
+                                                        ','.join(fmt_op(o) for o in ops) or '.', nf)
+
+            def cb(out, obs=obs):
+                m = split_model_trace(out)
+                if canon_log(m['log']) != (','.join(obs['log']) or '.') or m['results'] != (','.join(obs['results']) or '.'):
+                    mismatch('fullstack-' + kind, dict(case, impl_results=[clip(x) for x in obs['results']], model_results=clip(m['results']),
+                                                       impl_log=[clip(x) for x in obs['log']], model_log=clip(m['log'])))
+                else:
+                    nval[0] += 1
+            pending.append((line, cb))
+
+
+    def aligned_bounds(miu, hdr, nrec=None, kmax=5):
+        """record boundaries at k*MIU - hdr + (-1|0|+1) for increasing k (offsets inside the message)"""
+        nrec = nrec or rng.choice([2, 2, 3, 4])
+        ks, k = [], 0
+        for _ in range(nrec - 1):
+            k += rng.choice([1, 1, 2])
+            ks.append(k)
+        if ks[-1] > kmax:
+            ks = list(range(1, nrec))
+        return [k * miu - hdr + rng.choice([0, 0, -1, 1]) for k in ks]
+
+    def pick_ndef(miu, hdr):
+        """a test message for a transfer whose fragments are cut at k*miu - hdr"""
+        if rng.random() < 0.3:
+            m = ndef_aligned(rng, aligned_bounds(miu, hdr), rng.choice([0, 1, 5, rng.randrange(0, 2 * miu)]))
+            if m is not None:
+                ck.count('message-multi-record-aligned')
+                return m
+        return ndef_msg(rng, pick_size(miu, hdr))
+
+    def pick_ho(miu, select):
+        if rng.random() < 0.4:
+            m = ho_aligned(rng, aligned_bounds(miu, 0), rng.choice([0, 1, 5, rng.randrange(0, 2 * miu)]), select)
+            if m is not None:
+                ck.count('message-multi-record-aligned')
+                return m
+        return ho_msg(rng, max(40, pick_size(miu, 0)), select)
+
     if ck.replay:
         c = json.load(open(ck.replay)).get('case') or {}
-        if 'ops' in c:
+        if c.get('fullstack'):
+            fullstack(c['kind'], [parse_op(t) for t in c['ops']], c['cfg'], c['max_acc'], parse_answers(c['answers']),
+                      c.get('tag', 'replay'), c['expect'])
+            flush()
+        elif 'ops' in c:
             coupled(c['kind'], [parse_op(t) for t in c['ops']], c['miu_cs'], c['miu_sc'], c['max_acc'],
                     parse_answers(c['answers']), c.get('tag', 'replay'), c.get('expect'), derive=False)
             flush()
@@ -811,6 +987,40 @@ def main():
     coupled('ho', [('ho', req1), ('ho', req2)], 128, 128, 0, [('h', sel1), ('h', sel2)], 'session',
             expect={'log': ['ho:' + H(req1), 'ho:' + H(req2)], 'results': ['octets:' + H(sel1), 'octets:' + H(sel2)]})
     flush()
+    # handover request / select whose record boundary falls exactly on a fragment boundary (a decoder that
+    # tolerates the missing ME flag would take the first fragments for the whole message)
+    for miu, bounds in ((128, [128]), (128, [256, 384]), (131, [131, 393])):
+        rq = ho_aligned(rng, bounds, 30, False)
+        sl = ho_aligned(rng, bounds, 7, True)
+        coupled('ho', [('ho', rq)], miu, miu, 0, [('h', sl)], 'exchange',
+                expect={'log': ['ho:' + H(rq)], 'results': ['octets:' + H(sl)]})
+        fullstack('ho', [('ho', rq)], {'miu_i': miu, 'miu_t': miu, 'agf': False, 'srv_side': 't', 'srv_miu': miu, 'srv_rw': 2,
+                                        'cl_miu': miu, 'cl_rw': 2}, 0, [('h', sl)], 'exchange',
+                  {'log': ['ho:' + H(rq)], 'results': ['octets:' + H(sl)]})
+    # SNEP: record boundaries exactly on the cut of the information field
+    for miu, hdr in ((128, 6), (128, 10), (140, 6)):
+        mm = ndef_aligned(rng, [miu - hdr, 3 * miu - hdr], 11)
+        rr = ndef_aligned(rng, [miu - 6, 2 * miu - 6], 3)
+        if hdr == 6:
+            coupled('snep', [('put', mm)], miu, miu, 0x100000, [], 'put', {'log': ['put:' + H(mm)], 'results': ['true']})
+        else:
+            coupled('snep', [('get', mm, 0x100000)], miu, miu, 0x100000, [('gm', rr)], 'get',
+                    {'log': ['get:' + H(mm)], 'results': ['octets:' + H(rr)]})
+    # more than 16 fragments in each direction on one connection (sequence numbers wrap mod 16), receive
+    # window 1 (every I PDU acknowledged through the necessary-ack path), 2 and 15, through two real LLCs
+    for rw, nfrag, side in ((1, 20, 't'), (1, 17, 'i'), (2, 19, 't'), (15, 35, 'i')):
+        cfgl = {'miu_i': 128, 'miu_t': 128, 'agf': rw == 2, 'srv_side': side, 'srv_miu': 128, 'srv_rw': rw, 'cl_miu': 128, 'cl_rw': rw}
+        mm = ndef_msg(rng, nfrag * 128 - 3)
+        rr = ndef_msg(rng, nfrag * 128 + 5)
+        fullstack('snep', [('get', mm, 0x100000)], cfgl, 0x100000, [('gm', rr)], 'get-long',
+                  {'log': ['get:' + H(mm)], 'results': ['octets:' + H(rr)]})
+        fullstack('snep', [('put', mm), ('put', rr)], cfgl, 0x100000, [('p', 0x81), ('p', 0x81)], 'session-long',
+                  {'log': ['put:' + H(mm), 'put:' + H(rr)], 'results': ['true', 'true']})
+        rq = ho_msg(rng, nfrag * 128 + 1, False)
+        sl = ho_msg(rng, nfrag * 128 - 1, True)
+        fullstack('ho', [('ho', rq)], cfgl, 0, [('h', sl)], 'exchange-long',
+                  {'log': ['ho:' + H(rq)], 'results': ['octets:' + H(sl)]})
+    flush()
 
     n_snep = 400 if quick else 10000
     n_ho = 150 if quick else 4000
@@ -824,8 +1034,7 @@ def main():
         miu_cs, miu_sc = pick_miu(), pick_miu()
         is_put = rng.random() < 0.5
         hdr = 6 if is_put else 10
-        size = pick_size(miu_cs, hdr)
-        msg = ndef_msg(rng, size)
+        msg = pick_ndef(miu_cs, hdr)
         if msg is None:
             continue
         info = len(msg) + (0 if is_put else 4)          # the length field of the request
@@ -839,8 +1048,7 @@ def main():
                 exp = {'log': [], 'results': ['false' if len(msg) + 6 > miu_cs else 'sneperror:255']}
             coupled('snep', ops, miu_cs, miu_sc, max_acc, answers, 'put' if info <= max_acc else 'put-excess', exp)
         else:
-            rsize = pick_size(miu_sc, 6)
-            rsp = ndef_msg(rng, rsize)
+            rsp = pick_ndef(miu_sc, 6)
             if rsp is None:
                 continue
             acc = rng.choice([1024 * 1024, len(rsp), len(rsp) + 1, max(0, len(rsp) - 1), max(0, len(rsp) - rng.randrange(1, 40))])
@@ -863,8 +1071,8 @@ def main():
     # handover request / select
     for it in range(n_ho):
         miu_cs, miu_sc = pick_miu(), pick_miu()
-        req = ho_msg(rng, max(40, pick_size(miu_cs, 0)), False)
-        sel = ho_msg(rng, max(40, pick_size(miu_sc, 0)), True)
+        req = pick_ho(miu_cs, False)
+        sel = pick_ho(miu_sc, True)
         if req is None or sel is None:
             continue
         if not (prefix_free(req, [miu_cs]) and prefix_free(sel, [miu_sc])):
@@ -883,7 +1091,7 @@ def main():
             ops, answers, elog, eres = [], [], [], []
             for _ in range(rng.randrange(2, 5)):
                 if rng.random() < 0.5:
-                    m = ndef_msg(rng, pick_size(miu_cs, 6))
+                    m = pick_ndef(miu_cs, 6)
                     if m is None:
                         continue
                     ops.append(('put', m))
@@ -891,8 +1099,8 @@ def main():
                     elog.append('put:' + H(m))
                     eres.append('true')
                 else:
-                    m = ndef_msg(rng, pick_size(miu_cs, 10))
-                    r = ndef_msg(rng, pick_size(miu_sc, 6))
+                    m = pick_ndef(miu_cs, 10)
+                    r = pick_ndef(miu_sc, 6)
                     if m is None or r is None:
                         continue
                     ops.append(('get', m, len(r) + rng.randrange(0, 3)))
@@ -903,8 +1111,8 @@ def main():
         else:
             ops, answers, elog, eres = [], [], [], []
             for _ in range(rng.randrange(2, 4)):
-                req = ho_msg(rng, max(40, pick_size(miu_cs, 0)), False)
-                sel = ho_msg(rng, max(40, pick_size(miu_sc, 0)), True)
+                req = pick_ho(miu_cs, False)
+                sel = pick_ho(miu_sc, True)
                 if req is None or sel is None or not (prefix_free(req, [miu_cs]) and prefix_free(sel, [miu_sc])):
                     continue
                 ops.append(('ho', req))
@@ -940,79 +1148,27 @@ def main():
             flush()
     flush()
 
-    # ------------------------------------------------------------ (3) full stack: two real LLCs, no radio
-    def fullstack(kind, ops, cfg, max_acc, answers, tag, expect):
-        case = {'fullstack': True, 'kind': kind, 'tag': tag, 'cfg': cfg, 'max_acc': max_acc,
-                'ops': [fmt_op(o) for o in ops], 'answers': fmt_answers(answers), 'expect': expect}
-        if kind == 'ho' and len(ops) > 1 and any(v[0] == 'ho-server-second-request' for v in ck.violations):
-            return                     # already reported; the unrepaired server can deadlock the link here
-        obs = None
-        for attempt in range(2):       # a disagreement must reproduce (real threads, real waits)
-            try:
-                obs = fullstack_run(kind, ops, cfg, max_acc, answers)
-            except llcpair.Inconclusive as e:
-                ck.count('fullstack-inconclusive')
-                lst = ck.cov.setdefault('fullstack_inconclusive', [])
-                if len(lst) < 10:
-                    lst.append({'kind': kind, 'tag': tag, 'cfg': cfg, 'max_acc': max_acc, 'why': str(e), 'attempt': attempt,
-                                'sizes': [len(o[1]) for o in ops], 'answer_sizes': [len(a[1]) for a in answers if len(a) > 1 and isinstance(a[1], bytes)]})
-                if os.environ.get('C06_DEBUG'):
-                    sys.stderr.write('INCONCLUSIVE %s\n' % json.dumps(lst[-1] if lst else {}, default=str))
-                if attempt == 0:
-                    continue
-                return
-            except Exception as e:  # noqa
-                obs = {'results': ['!' + type(e).__name__], 'log': [], 'send_miu': None, 'recv_miu': None, 'frames': 0}
-            if obs['log'] == expect['log'] and obs['results'] == expect['results']:
-                break
-        ck.count('fullstack-%s-%s' % (kind, tag))
-        if obs.get('close_hung'):
-            ck.count('fullstack-socket-close-hung-after-transfer(tco close race, not a C06 matter)')
-        ck.case(('fs', kind, tuple(ops), tuple(sorted(cfg.items())), max_acc), obs['frames'] > 12,
-                {'kind': 'fullstack ' + kind, 'tag': tag, 'cfg': cfg, 'sizes': [len(o[1]) for o in ops],
-                 'pdus': obs['frames'], 'send_miu': obs['send_miu']})
-        if obs['log'] != expect['log']:
-            if kind == 'ho' and len(ops) > 1 and obs['log'][:1] == expect['log'][:1]:
-                ck.violation('ho-server-second-request', 'handover server: a second request on the same connection is not delivered '
-                             'intact (the first request is processed again, once per fragment)', case)
-            else:
-                ck.violation('fullstack-%s-%s-delivery' % (kind, tag), 'full stack (two LLCs): the server application did not receive '
-                             'exactly the messages sent, once each', dict(case, got_log=[clip(x) for x in obs['log']]))
-        elif obs['results'] != expect['results']:
-            ck.violation('fullstack-%s-%s-client-result' % (kind, tag), 'full stack (two LLCs): the client did not obtain the expected '
-                         'result', dict(case, got=[clip(x) for x in obs['results']]))
-        # the model, run with the MIUs the connection really negotiated, must predict the same
-        if obs['send_miu'] and obs['recv_miu']:
-            nf = 4 * sum(len(o[1]) // 100 + 4 for o in ops) + 8 * sum(len(a[1]) // 100 + 4 for a in answers if len(a) > 1 and isinstance(a[1], bytes)) + 60
-            if kind == 'snep':
-                cls = {o[1]: default_cls(o[1]) for o in ops}
-                line = 'snep %d %d %d %s %s %s %d' % (obs['send_miu'], obs['recv_miu'], max_acc,
-                                                       fmt_table([c for c in cls if cls[c] == 'ok']),
-                                                       fmt_answers(answers), ','.join(fmt_op(o) for o in ops) or '.', nf)
-            else:
-                qs = set(o[1] for o in ops) | set(a[1] for a in answers if a[0] == 'h')
-                line = 'ho %d %d 1 %s %s %s %s %d' % (obs['send_miu'], obs['recv_miu'], fmt_table([q for q in qs if strict_ok(q)]),
-                                                        fmt_table([q for q in qs if is_hr(q)]), fmt_answers(answers),
-                                                        ','.join(fmt_op(o) for o in ops) or '.', nf)
+    # ------------------------------------------------------------ (3) full stack: generated cases
+    def fs_ndef(miu, hdr):
+        # one transfer in five has 17..40 fragments (sequence numbers and acknowledgements wrap mod 16)
+        if miu <= 300 and rng.random() < 0.2:
+            return ndef_msg(rng, rng.randrange(17, 41) * miu - hdr + rng.randrange(-7, 8))
+        return pick_ndef(miu, hdr)
 
-            def cb(out, obs=obs):
-                m = split_model_trace(out)
-                if canon_log(m['log']) != (','.join(obs['log']) or '.') or m['results'] != (','.join(obs['results']) or '.'):
-                    mismatch('fullstack-' + kind, dict(case, impl_results=[clip(x) for x in obs['results']], model_results=clip(m['results']),
-                                                       impl_log=[clip(x) for x in obs['log']], model_log=clip(m['log'])))
-                else:
-                    nval[0] += 1
-            pending.append((line, cb))
+    def fs_ho(miu, select):
+        if miu <= 300 and rng.random() < 0.2:
+            return ho_msg(rng, rng.randrange(17, 41) * miu + rng.randrange(-7, 8), select)
+        return pick_ho(miu, select)
 
     def pick_link_miu():
-        return rng.choice([128, 128, 129, 200, 248, 1024, 2175, rng.randrange(128, 2176)])
+        return rng.choice([128, 128, 128, 129, 200, 248, 1024, 2175, rng.randrange(128, 2176)])
 
     n_fs = 120 if quick else 3000
     if os.environ.get('C06_ONLY_FULLSTACK'):
         n_fs = int(os.environ['C06_ONLY_FULLSTACK'])
     for it in range(n_fs):
         cfg = {'miu_i': pick_link_miu(), 'miu_t': pick_link_miu(), 'agf': rng.random() < 0.5, 'srv_side': rng.choice(['i', 't']),
-               'srv_miu': rng.choice([128, 248, 1984, rng.randrange(128, 2176)]), 'srv_rw': rng.choice([1, 2, 15, rng.randrange(1, 16)]),
+               'srv_miu': rng.choice([128, 248, 1984, rng.randrange(128, 2176)]), 'srv_rw': rng.choice([1, 1, 2, 15, rng.randrange(1, 16)]),
                'cl_miu': rng.choice([128, 128, 248, 1984, rng.randrange(128, 2176)]), 'cl_rw': rng.choice([1, 1, 2, 15, rng.randrange(1, 16)])}
         cl_link = cfg['miu_i'] if cfg['srv_side'] == 't' else cfg['miu_t']
         srv_link = cfg['miu_t'] if cfg['srv_side'] == 't' else cfg['miu_i']
@@ -1020,7 +1176,7 @@ def main():
         rmiu = min(cfg['cl_miu'], cl_link)
         k = rng.randrange(4)
         if k == 0:
-            msg = ndef_msg(rng, pick_size(smiu, 6))
+            msg = fs_ndef(smiu, 6)
             if msg is None:
                 continue
             max_acc = rng.choice([0x100000, len(msg), len(msg) + 1, max(0, len(msg) - 1)])
@@ -1030,8 +1186,8 @@ def main():
                 fullstack('snep', [('put', msg)], cfg, max_acc, [], 'put-excess',
                           {'log': [], 'results': ['false' if len(msg) + 6 > smiu else 'sneperror:255']})
         elif k == 1:
-            msg = ndef_msg(rng, pick_size(smiu, 10))
-            rsp = ndef_msg(rng, pick_size(rmiu, 6))
+            msg = fs_ndef(smiu, 10)
+            rsp = fs_ndef(rmiu, 6)
             if msg is None or rsp is None:
                 continue
             acc = rng.choice([0x100000, len(rsp), len(rsp) + 1, max(0, len(rsp) - 1)])
@@ -1044,7 +1200,7 @@ def main():
         elif k == 2:
             ops, answers, elog, eres = [], [], [], []
             for _ in range(rng.randrange(1, 4)):
-                m = ndef_msg(rng, pick_size(smiu, 6))
+                m = fs_ndef(smiu, 6)
                 if m is None:
                     continue
                 ops.append(('put', m))
@@ -1055,8 +1211,8 @@ def main():
         else:
             ops, answers, elog, eres = [], [], [], []
             for _ in range(rng.choice([1, 1, 2])):
-                req = ho_msg(rng, max(40, pick_size(smiu, 0)), False)
-                sel = ho_msg(rng, max(40, pick_size(rmiu, 0)), True)
+                req = fs_ho(smiu, False)
+                sel = fs_ho(rmiu, True)
                 if req is None or sel is None or not (prefix_free(req, [smiu]) and prefix_free(sel, [rmiu])):
                     continue
                 ops.append(('ho', req))
@@ -1072,7 +1228,10 @@ def main():
     ck.cov['traces_validated_against_impl'] = nval[0]
     ck.cov['correspondence_mismatches'] = nmis[0]
     ck.finish(level='proof',
-              rule='message sizes 0..6*MIU with k*MIU(-header)-7..+7, MIU 128..2175 per side (biased to small MIUs, some '
+              rule='corpus first (second handover request on a connection; multi-record messages whose record boundaries fall '
+                   'exactly on fragment boundaries; full-stack transfers of 17-35 fragments per direction with receive window '
+                   '1, 2, 15). message sizes 0..6*MIU with k*MIU(-header)-7..+7, multi-record messages (2-4 records) with record '
+                   'boundaries at k*MIU(-header)-1/0/+1, full-stack transfers of up to 40 fragments, MIU 128..2175 per side (biased to small MIUs, some '
                    'below 128 for the odd cases), acceptable-length limits at size-1/size/size+1 and further away, put/get/'
                    'handover, single operations and sessions of 2-4 operations on one connection; each coupled run also '
                    'yields scripted single-function cases (the valid conversation and mutated ones). non-trivial = at '
